@@ -52,12 +52,19 @@ Inductive pres (A : Type) := POk (a : A) | PInc | PErr | PFuel.
 Arguments POk {A}. Arguments PInc {A}. Arguments PErr {A}. Arguments PFuel {A}.
 
 Definition parse_uint (bs : list byte) : N := fold_left (fun r b => (r * 256 + bN b) mod 2^64) bs 0.
-Definition parse_length (i : list byte) : pres (N * list byte) :=
+Definition be_value (bs : list byte) : N := fold_left (fun r b => r * 256 + bN b) bs 0.
+(* repair F38: length octets whose value does not fit 64 bits are an error; as found ([parse_length_asfound]) the value was folded modulo
+   2^64 by the shifts of parse_uint, so that an element announcing 2^64+12 octets was complete after 12 *)
+Definition parse_length_gen (strict : bool) (i : list byte) : pres (N * list byte) :=
   match i with [] => PInc | b :: r =>
     let l := bN b in
     if l <? 128 then POk (l, r) else
+      if strict && (l =? 128) then PErr else     (* 0x80 announces the indefinite form; as found it was read as a long form of no octets, i.e. length 0 *)
       let k := N.to_nat (l - 128) in
-      if Nat.ltb (length r) k then PInc else POk (parse_uint (firstn k r), skipn k r) end.
+      if Nat.ltb (length r) k then PInc else
+      if strict && negb (be_value (firstn k r) <? 2^64) then PErr else POk (parse_uint (firstn k r), skipn k r) end.
+Definition parse_length := parse_length_gen true.
+Definition parse_length_asfound := parse_length_gen false.
 Definition parse_header (b0 : byte) : class * bool * N :=
   let n := bN b0 in (class_of_N (n / 64), N.testbit n 5, N.land n 31).
 
@@ -83,7 +90,6 @@ Fixpoint parse_tag (fuel : nat) (i : list byte) : pres (tree * list byte) :=
     | PInc => PInc | PErr => PErr | PFuel => PFuel end end end.
 
 (* ---------- specification: any definite-length encoding ---------- *)
-Definition be_value (bs : list byte) : N := fold_left (fun r b => r * 256 + bN b) bs 0.
 Inductive LenEnc : N -> list byte -> Prop :=
 | LE_short n : n < 128 -> LenEnc n [byte_of_N n]
 | LE_long n bs : (1 <= length bs <= 127)%nat -> be_value bs = n -> n < 2^64 ->
@@ -130,14 +136,15 @@ Proof. induction l; cbn; congruence. Qed.
 Lemma parse_length_spec n l rest : LenEnc n l -> parse_length (l ++ rest) = POk (n, rest).
 Proof.
   intros [n' Hn | n' bs [Hl1 Hl2] Hv Hn].
-  - cbn [app parse_length]. rewrite bN_byte_of_N, N.mod_small by lia.
+  - unfold parse_length. cbn [app parse_length_gen]. rewrite bN_byte_of_N, N.mod_small by lia.
     destruct (N.ltb_spec n' 128); [reflexivity|lia].
-  - cbn [app parse_length]. rewrite bN_byte_of_N, N.mod_small by lia.
+  - unfold parse_length. cbn [app parse_length_gen]. rewrite bN_byte_of_N, N.mod_small by lia.
     destruct (N.ltb_spec (128 + N.of_nat (length bs)) 128); [lia|].
+    destruct (N.eqb_spec (128 + N.of_nat (length bs)) 128); [lia|]. cbn [andb].
     replace (N.to_nat (128 + N.of_nat (length bs) - 128)) with (length bs) by lia.
     rewrite app_length. destruct (Nat.ltb_spec (length bs + length rest) (length bs)); [lia|].
     rewrite firstn_app_exact, skipn_app_exact, parse_uint_be_value by (rewrite Hv; exact Hn).
-    now rewrite Hv.
+    rewrite Hv. destruct (N.ltb_spec n' (2^64)); [reflexivity|lia].
 Qed.
 
 Lemma BerEnc_nonempty t b : BerEnc t b -> b <> [].
@@ -229,18 +236,35 @@ Corollary roundtrip t rest : ids_ok t -> small t ->
   parse_tag (S (length (encode t))) (encode t ++ rest) = POk (t, rest).
 Proof. intros Hi Hs. apply (proj1 any_encoding_parses); [now apply encode_is_encoding|lia]. Qed.
 
+(* F38: what the length parser returns is the value its octets denote - no folding *)
+Theorem parse_length_honest b r n r' : parse_length (b :: r) = POk (n, r') -> 128 <= bN b ->
+  let k := N.to_nat (bN b - 128) in n = be_value (firstn k r) /\ r' = skipn k r /\ n < 2^64 /\ (0 < k)%nat.
+Proof.
+  unfold parse_length. cbn [parse_length_gen]. intros H Hb. destruct (N.ltb_spec (bN b) 128); [lia|].
+  cbn [andb] in H. destruct (N.eqb_spec (bN b) 128) as [|Hne]; [discriminate|].
+  destruct (Nat.ltb (length r) (N.to_nat (bN b - 128))); [discriminate|]. cbn [andb] in H.
+  destruct (N.ltb_spec (be_value (firstn (N.to_nat (bN b - 128)) r)) (2^64)) as [Hlt|]; [|discriminate]. cbn [negb] in H.
+  injection H as <- <-. cbn zeta. rewrite parse_uint_be_value by exact Hlt. repeat split; [exact Hlt|lia].
+Qed.
+Lemma c11_refuted_F38_length : let i := map byte_of_N [137; 1; 0; 0; 0; 0; 0; 0; 0; 12; 48] in
+  parse_length_asfound i = POk (12, [byte_of_N 48]) /\ parse_length i = PErr /\
+  parse_length (map byte_of_N [137; 0; 0; 0; 0; 0; 0; 0; 0; 12; 48]) = POk (12, [byte_of_N 48]) /\
+  parse_length_asfound (map byte_of_N [128; 48]) = POk (0, [byte_of_N 48]) /\ parse_length (map byte_of_N [128; 48]) = PErr.
+Proof. vm_compute. repeat split. Qed.
+
 (* ---------- C06: a proper prefix of an encoding is Incomplete, never Ok, never Error ---------- *)
 Lemma parse_length_prefix n l body p q : LenEnc n l -> N.of_nat (length body) = n -> p ++ q = l ++ body -> q <> [] ->
   parse_length p = PInc \/ exists i2, parse_length p = POk (n, i2) /\ N.of_nat (length i2) < n.
 Proof.
   intros HL Hb E Hq. destruct HL as [n' Hn | n' bs [Hl1 Hl2] Hv Hn].
   - destruct p as [|b p]; [now left|]. cbn in E. injection E as -> E. right. exists p.
-    cbn [parse_length]. rewrite bN_byte_of_N, N.mod_small by lia. destruct (N.ltb_spec n' 128); [|lia].
+    unfold parse_length. cbn [parse_length_gen]. rewrite bN_byte_of_N, N.mod_small by lia. destruct (N.ltb_spec n' 128); [|lia].
     split; [reflexivity|]. assert (length body = length p + length q)%nat by (rewrite <- app_length; congruence).
     destruct q; [congruence|]. cbn [length] in *. lia.
   - destruct p as [|b p]; [now left|]. cbn in E. injection E as -> E.
-    cbn [parse_length]. rewrite bN_byte_of_N, N.mod_small by lia.
+    unfold parse_length. cbn [parse_length_gen]. rewrite bN_byte_of_N, N.mod_small by lia.
     destruct (N.ltb_spec (128 + N.of_nat (length bs)) 128); [lia|].
+    destruct (N.eqb_spec (128 + N.of_nat (length bs)) 128); [lia|]. cbn [andb].
     replace (N.to_nat (128 + N.of_nat (length bs) - 128)) with (length bs) by lia.
     destruct (Nat.ltb_spec (length p) (length bs)) as [Hlt|Hge]; [now left|]. right.
     (* p = bs ++ p' *)
@@ -251,7 +275,7 @@ Proof.
       cbn in E. now rewrite app_nil_r in E. }
     set (p' := skipn (length bs) p) in *. rewrite Hp in E |- *. rewrite <- app_assoc in E. apply app_inv_head in E.
     exists p'. rewrite firstn_app_exact, parse_uint_be_value by (rewrite Hv; exact Hn).
-    rewrite Hv. split; [reflexivity|].
+    rewrite Hv. destruct (N.ltb_spec n' (2^64)); [|lia]. split; [reflexivity|].
     assert (length body = length p' + length q)%nat by (rewrite <- app_length; congruence).
     destruct q; [congruence|]. cbn [length] in *. lia.
 Qed.
